@@ -125,23 +125,221 @@ theorem trimAux_ws (b : UInt8) (r : Bytes) (h : isAsciiWs b = true) : trimAux sp
 theorem trimAuxRev_ws (b : UInt8) (r : Bytes) (h : isAsciiWs b = true) : trimAux spWidthRev 0 (b :: r) = trimAux spWidthRev 0 r := by
   simp [trimAux, spWidthRev_ws b r h]
 
-/-- all bytes ASCII white space -/
-def allWs (p : Bytes) : Prop := ∀ b ∈ p, isAsciiWs b = true
+/-! ### white-space runes (ASCII and Unicode) as padding -/
+
+/-- one white-space rune in its UTF-8 encoding -/
+inductive WsRune : Bytes → Prop
+  | ascii (b : UInt8) (h : isAsciiWs b = true) : WsRune [b]
+  | two (c : UInt8) (h : (c == 0x85 || c == 0xA0) = true) : WsRune [0xC2, c]
+  | three (b c d : UInt8)
+      (h : ((b == 0xE1 && c == 0x9A && d == 0x80) || (b == 0xE2 && c == 0x80 && isE280Sp d)
+            || (b == 0xE2 && c == 0x81 && d == 0x9F) || (b == 0xE3 && c == 0x80 && d == 0x80)) = true) :
+      WsRune [b, c, d]
+
+/-- a sequence of white-space runes (ASCII blanks, NEL, NBSP, U+1680, U+2000–200A, U+2028/9, U+202F, U+205F, U+3000) -/
+inductive allWs : Bytes → Prop
+  | nil : allWs []
+  | cons (r p : Bytes) (hr : WsRune r) (hp : allWs p) : allWs (r ++ p)
+
+theorem e280_ge {d : UInt8} (h : isE280Sp d = true) : 128 ≤ d := by
+  simp only [isE280Sp, Bool.or_eq_true, Bool.and_eq_true, decide_eq_true_eq, beq_iff_eq] at h
+  rcases h with ((h | h) | h) | h
+  · exact h.1
+  · subst h; decide
+  · subst h; decide
+  · subst h; decide
+
+theorem notWs_of_ge128 {d : UInt8} (h : 128 ≤ d) : isAsciiWs d = false := by
+  cases hh : isAsciiWs d with
+  | false => rfl
+  | true =>
+    have := UInt8.lt_iff_toNat_lt.mp (show d < 128 from by
+      simp [isAsciiWs] at hh
+      rcases hh with ((((h|h)|h)|h)|h)|h <;> subst h <;> decide)
+    have := UInt8.le_iff_toNat_le.mp h
+    omega
+
+/-- the three-byte white-space runes, one by one -/
+theorem ws3_cases {b c d : UInt8}
+    (h : ((b == 0xE1 && c == 0x9A && d == 0x80) || (b == 0xE2 && c == 0x80 && isE280Sp d)
+          || (b == 0xE2 && c == 0x81 && d == 0x9F) || (b == 0xE3 && c == 0x80 && d == 0x80)) = true) :
+    (b = 0xE1 ∧ c = 0x9A ∧ d = 0x80) ∨ (b = 0xE2 ∧ c = 0x80 ∧ isE280Sp d = true) ∨ (b = 0xE2 ∧ c = 0x81 ∧ d = 0x9F)
+      ∨ (b = 0xE3 ∧ c = 0x80 ∧ d = 0x80) := by
+  simp only [Bool.or_eq_true, Bool.and_eq_true, beq_iff_eq] at h
+  rcases h with ((h | h) | h) | h
+  · exact Or.inl ⟨h.1.1, h.1.2, h.2⟩
+  · exact Or.inr (Or.inl ⟨h.1.1, h.1.2, h.2⟩)
+  · exact Or.inr (Or.inr (Or.inl ⟨h.1.1, h.1.2, h.2⟩))
+  · exact Or.inr (Or.inr (Or.inr ⟨h.1.1, h.1.2, h.2⟩))
+
+/-- `TrimSpace` from the left steps over one white-space rune -/
+theorem trimAux_rune (r s : Bytes) (hr : WsRune r) : trimAux spWidth 0 (r ++ s) = trimAux spWidth 0 s := by
+  cases hr with
+  | ascii b h => exact trimAux_ws b s h
+  | two c h =>
+    have hw : spWidth (0xC2 :: c :: s) = 2 := by
+      simp [spWidth, isAsciiWs, h]
+    show trimAux spWidth 0 (0xC2 :: c :: s) = _
+    simp [trimAux, hw]
+  | three b c d h =>
+    have hw : spWidth (b :: c :: d :: s) = 3 := by
+      rcases ws3_cases h with ⟨rfl, rfl, rfl⟩ | ⟨rfl, rfl, hd⟩ | ⟨rfl, rfl, rfl⟩ | ⟨rfl, rfl, rfl⟩
+      · simp [spWidth, isAsciiWs]
+      · simp [spWidth, isAsciiWs, hd]
+      · simp [spWidth, isAsciiWs]
+      · simp [spWidth, isAsciiWs]
+    show trimAux spWidth 0 (b :: c :: d :: s) = _
+    simp [trimAux, hw]
+
+/-- `TrimSpace` from the right steps over one white-space rune (`DecodeLastRune`) -/
+theorem trimAuxRev_rune (r s : Bytes) (hr : WsRune r) : trimAux spWidthRev 0 (r.reverse ++ s) = trimAux spWidthRev 0 s := by
+  cases hr with
+  | ascii b h => exact trimAuxRev_ws b s h
+  | two c h =>
+    have hw : spWidthRev (c :: 0xC2 :: s) = 2 := by
+      simp only [Bool.or_eq_true, beq_iff_eq] at h
+      rcases h with rfl | rfl <;> simp [spWidthRev, isAsciiWs]
+    show trimAux spWidthRev 0 (c :: 0xC2 :: s) = _
+    simp [trimAux, hw]
+  | three b c d h =>
+    have hw : spWidthRev (d :: c :: b :: s) = 3 := by
+      rcases ws3_cases h with ⟨rfl, rfl, rfl⟩ | ⟨rfl, rfl, hd⟩ | ⟨rfl, rfl, rfl⟩ | ⟨rfl, rfl, rfl⟩
+      · simp [spWidthRev, isAsciiWs]
+      · simp [spWidthRev, notWs_of_ge128 (e280_ge hd), hd]
+      · simp [spWidthRev, isAsciiWs]
+      · simp [spWidthRev, isAsciiWs]
+    show trimAux spWidthRev 0 (d :: c :: b :: s) = _
+    simp [trimAux, hw]
 
 theorem trimAux_pad (p s : Bytes) (hp : allWs p) : trimAux spWidth 0 (p ++ s) = trimAux spWidth 0 s := by
-  induction p with
+  induction hp with
   | nil => rfl
-  | cons b r ih =>
-    have hb := hp b (by simp)
-    rw [List.cons_append, trimAux_ws _ _ hb]
-    exact ih (fun x hx => hp x (by simp [hx]))
-theorem trimAuxRev_pad (p s : Bytes) (hp : allWs p) : trimAux spWidthRev 0 (p ++ s) = trimAux spWidthRev 0 s := by
-  induction p with
+  | cons r p hr _ ih => rw [List.append_assoc, trimAux_rune r _ hr, ih]
+
+/-- from the right: the reversed padding is stepped over rune by rune -/
+theorem trimAuxRev_pad (p s : Bytes) (hp : allWs p) : trimAux spWidthRev 0 (p.reverse ++ s) = trimAux spWidthRev 0 s := by
+  induction hp generalizing s with
   | nil => rfl
-  | cons b r ih =>
-    have hb := hp b (by simp)
-    rw [List.cons_append, trimAuxRev_ws _ _ hb]
-    exact ih (fun x hx => hp x (by simp [hx]))
+  | cons r p hr _ ih => rw [List.reverse_append, List.append_assoc, ih, trimAuxRev_rune r s hr]
+
+theorem allWs_append {p q : Bytes} (hp : allWs p) (hq : allWs q) : allWs (p ++ q) := by
+  induction hp with
+  | nil => exact hq
+  | cons r p hr _ ih => rw [List.append_assoc]; exact allWs.cons r _ hr ih
+
+theorem allWs_single {b : UInt8} (h : isAsciiWs b = true) : allWs [b] := by
+  have := allWs.cons [b] [] (WsRune.ascii b h) allWs.nil
+  simpa using this
+
+theorem allWs_LF : allWs [LF] := allWs_single (by decide)
+
+/-- the bytes of a white-space rune: an ASCII blank, or a byte ≥ 0x80 -/
+theorem wsRune_bytes {r : Bytes} (hr : WsRune r) : ∀ b ∈ r, isAsciiWs b = true ∨ 128 ≤ b := by
+  cases hr with
+  | ascii b h => intro x hx; simp at hx; subst hx; exact Or.inl h
+  | two c h =>
+    intro x hx
+    simp only [Bool.or_eq_true, beq_iff_eq] at h
+    simp only [List.mem_cons, List.not_mem_nil, or_false] at hx
+    rcases hx with rfl | rfl
+    · exact Or.inr (by decide)
+    · rcases h with rfl | rfl <;> exact Or.inr (by decide)
+  | three b c d h =>
+    intro x hx
+    simp only [List.mem_cons, List.not_mem_nil, or_false] at hx
+    rcases ws3_cases h with ⟨rfl, rfl, rfl⟩ | ⟨rfl, rfl, hd⟩ | ⟨rfl, rfl, rfl⟩ | ⟨rfl, rfl, rfl⟩
+    · rcases hx with rfl | rfl | rfl <;> exact Or.inr (by decide)
+    · rcases hx with rfl | rfl | rfl
+      · exact Or.inr (by decide)
+      · exact Or.inr (by decide)
+      · exact Or.inr (e280_ge hd)
+    · rcases hx with rfl | rfl | rfl <;> exact Or.inr (by decide)
+    · rcases hx with rfl | rfl | rfl <;> exact Or.inr (by decide)
+
+theorem allWs_bytes {p : Bytes} (hp : allWs p) : ∀ b ∈ p, isAsciiWs b = true ∨ 128 ≤ b := by
+  induction hp with
+  | nil => intro b hb; simp at hb
+  | cons r p hr _ ih =>
+    intro b hb
+    rcases List.mem_append.mp hb with h | h
+    · exact wsRune_bytes hr b h
+    · exact ih b h
+
+/-- the first byte of a white-space rune is an ASCII blank or a UTF-8 lead byte: never a continuation byte -/
+theorem wsRune_head {r : Bytes} (hr : WsRune r) : ∃ y t, r = y :: t ∧ (y < 128 ∨ 192 ≤ y) := by
+  cases hr with
+  | ascii b h => exact ⟨b, [], rfl, Or.inl (ws_lt128 h)⟩
+  | two c h => exact ⟨0xC2, [c], rfl, Or.inr (by decide)⟩
+  | three b c d h =>
+    refine ⟨b, [c, d], rfl, Or.inr ?_⟩
+    rcases ws3_cases h with ⟨rfl, _⟩ | ⟨rfl, _⟩ | ⟨rfl, _⟩ | ⟨rfl, _⟩ <;> decide
+
+theorem allWs_head {p : Bytes} (hp : allWs p) : ∀ x ∈ p.head?, x < 128 ∨ 192 ≤ x := by
+  cases hp with
+  | nil => intro x hx; simp at hx
+  | cons r p hr _ =>
+    obtain ⟨y, t, rfl, hy⟩ := wsRune_head hr
+    intro x hx
+    simp at hx; subst hx; exact hy
+
+/-- a white-space rune ends in CR only when it IS the CR -/
+theorem wsRune_concat_cr {q r : Bytes} (hr : WsRune r) (h : r = q ++ [13]) : q = [] := by
+  cases hr with
+  | ascii b hb =>
+    cases q with
+    | nil => rfl
+    | cons x t => simp at h
+  | two c hc =>
+    simp only [Bool.or_eq_true, beq_iff_eq] at hc
+    match q, h with
+    | [], h => simp at h
+    | [x], h =>
+      simp at h
+      rcases hc with rfl | rfl <;> exact absurd h.2 (by decide)
+    | x :: y :: t, h => simp at h
+  | three b c d hd3 =>
+    match q, h with
+    | [], h => simp at h
+    | [x], h => simp at h
+    | [x, y], h =>
+      simp at h
+      have hd : d = 13 := h.2.2
+      rcases ws3_cases hd3 with ⟨_, _, rfl⟩ | ⟨_, _, he⟩ | ⟨_, _, rfl⟩ | ⟨_, _, rfl⟩
+      · exact absurd hd (by decide)
+      · subst hd; exact absurd he (by decide)
+      · exact absurd hd (by decide)
+      · exact absurd hd (by decide)
+    | x :: y :: z :: t, h => simp at h
+
+/-- dropping a final CR from padding leaves padding -/
+theorem allWs_of_concat_cr {q : Bytes} (h : allWs (q ++ [13])) : allWs q := by
+  generalize hp : q ++ [13] = p at h
+  induction h generalizing q with
+  | nil => simp at hp
+  | cons r p hr hpp ih =>
+    cases p with
+    | nil =>
+      simp only [List.append_nil] at hp
+      rw [wsRune_concat_cr hr hp.symm]; exact allWs.nil
+    | cons x t =>
+      -- the last element of `r ++ x :: t` is the last of `x :: t`
+      obtain ⟨t', e⟩ : ∃ t', x :: t = t' ++ [13] := by
+        have hl : (q ++ [13]).getLast? = (r ++ x :: t).getLast? := by rw [hp]
+        rw [List.getLast?_concat, List.getLast?_append] at hl
+        have hx : (x :: t).getLast? = some 13 := by
+          cases hxt : (x :: t).getLast? with
+          | none => simp at hxt
+          | some z => rw [hxt] at hl; simpa using hl.symm
+        rcases List.eq_nil_or_concat (x :: t) with hn | ⟨t', z, hz⟩
+        · simp at hn
+        · rw [List.concat_eq_append] at hz
+          rw [hz, List.getLast?_concat] at hx
+          exact ⟨t', by rw [hz]; simp at hx; rw [hx]⟩
+      have hq : q = r ++ t' := by
+        rw [e, ← List.append_assoc] at hp
+        exact List.append_inj_left' hp rfl
+      rw [hq]
+      exact allWs.cons r t' hr (ih e.symm)
 
 /-- a following ASCII byte never completes a white-space rune -/
 theorem spWidth_append (s t : Bytes) (hs : s ≠ []) (h0 : spWidth s = 0) (ht : ∀ x ∈ t.head?, x < 128) :
@@ -177,6 +375,49 @@ theorem spWidth_append (s t : Bytes) (hs : s ≠ []) (h0 : spWidth s = 0) (ht : 
   | a :: b :: c :: r, _ => simpa [spWidth] using h0
 
 
+theorem ge192_ne {x c : UInt8} (hx : 192 ≤ x) (hc : c < 192) : (x == c) = false := by
+  cases h : x == c with
+  | false => rfl
+  | true =>
+    have := eq_of_beq h; subst this
+    exact absurd (Nat.lt_of_lt_of_le (UInt8.lt_iff_toNat_lt.mp hc) (UInt8.le_iff_toNat_le.mp hx)) (Nat.lt_irrefl _)
+
+theorem ge192_notE280 {x : UInt8} (hx : 192 ≤ x) : isE280Sp x = false := by
+  have h := UInt8.le_iff_toNat_le.mp hx
+  have h1 : ¬ x ≤ 138 := fun hh => by have := UInt8.le_iff_toNat_le.mp hh; simp at this h; omega
+  simp [isE280Sp, h1, ge192_ne hx (c := 168) (by decide), ge192_ne hx (c := 169) (by decide), ge192_ne hx (c := 175) (by decide)]
+
+/-- a following ASCII byte OR UTF-8 lead byte (anything but a continuation byte) never completes a white-space rune -/
+theorem spWidth_append' (s t : Bytes) (hs : s ≠ []) (h0 : spWidth s = 0) (ht : ∀ x ∈ t.head?, x < 128 ∨ 192 ≤ x) :
+    spWidth (s ++ t) = 0 := by
+  cases t with
+  | nil => simpa using h0
+  | cons y t2 =>
+    rcases ht y (by simp) with hy | hy
+    · exact spWidth_append s (y :: t2) hs h0 (by intro x hx; simp at hx; subst hx; exact hy)
+    · match s, hs with
+      | [a], _ =>
+        have hw : isAsciiWs a = false := by
+          cases hh : isAsciiWs a with
+          | false => rfl
+          | true => simp [spWidth, hh] at h0
+        cases t2 with
+        | nil => simp [spWidth, hw, ge192_ne hy (c := 133) (by decide), ge192_ne hy (c := 160) (by decide)]
+        | cons d t3 =>
+          simp [spWidth, hw, ge192_ne hy (c := 133) (by decide), ge192_ne hy (c := 160) (by decide),
+            ge192_ne hy (c := 154) (by decide), ge192_ne hy (c := 128) (by decide), ge192_ne hy (c := 129) (by decide)]
+      | [a, b], _ =>
+        have hw : isAsciiWs a = false := by
+          cases hh : isAsciiWs a with
+          | false => rfl
+          | true => simp [spWidth, hh] at h0
+        have e1 : y ≠ 128 := fun h => by subst h; exact absurd hy (by decide)
+        have e2 : y ≠ 159 := fun h => by subst h; exact absurd hy (by decide)
+        simp [spWidth, hw] at h0 ⊢
+        simp [e1, e2, ge192_notE280 hy]
+        exact h0
+      | a :: b :: c :: r, _ => simpa [spWidth] using h0
+
 theorem trimLeft_allWs (p : Bytes) (hp : allWs p) : trimLeft p = [] := by
   have := trimAux_pad p [] hp
   simpa [trimLeft, trimAux] using this
@@ -188,25 +429,19 @@ theorem trimSpace_pad (pre core post : Bytes) (hpre : allWs pre) (hpost : allWs 
   by_cases hc : core = []
   · subst hc
     have : allWs (pre ++ [] ++ post) := by
-      intro b hb; simp at hb; rcases hb with hb | hb
-      · exact hpre b hb
-      · exact hpost b hb
+      simpa using allWs_append hpre hpost
     rw [trimSpace, trimLeft_allWs _ this]; rfl
   · have hl : trimLeft (pre ++ core ++ post) = core ++ post := by
       unfold trimLeft
       rw [List.append_assoc, trimAux_pad _ _ hpre]
       apply trimAux_of_zero
-      apply spWidth_append _ _ hc h1
-      intro x hx
-      cases post with
-      | nil => simp at hx
-      | cons y r => simp at hx; subst hx; exact ws_lt128 (hpost _ (by simp))
+      exact spWidth_append' _ _ hc h1 (allWs_head hpost)
     unfold trimSpace trimRight
-    rw [hl, List.reverse_append, trimAuxRev_pad _ _ (by intro b hb; exact hpost b (by simpa using hb)),
+    rw [hl, List.reverse_append, trimAuxRev_pad _ _ hpost,
       trimAux_of_zero _ _ h2, List.reverse_reverse]
 
 theorem trimSpace_allWs (p : Bytes) (hp : allWs p) : trimSpace p = [] := by
-  have := trimSpace_pad p [] [] hp (by intro b hb; simp at hb) rfl rfl
+  have := trimSpace_pad p [] [] hp allWs.nil rfl rfl
   simpa using this
 
 theorem spWidth_ascii (a : UInt8) (r : Bytes) (ha : a < 128) (hw : isAsciiWs a = false) : spWidth (a :: r) = 0 := by
@@ -303,24 +538,61 @@ theorem atoi_natToDec (n : Nat) (hn : n < 9223372036854775808) : atoi (natToDec 
     simp [atoi, hb.2.2.2.2.2.1, hb.2.2.2.2.2.2, atoiUnsigned, hall, h3, hn]
 
 
-theorem padOK_iff (p : Bytes) : padOK p = true ↔ ∀ b ∈ p, isAsciiWs b = true ∧ b ≠ LF := by
-  simp [padOK]
+/-- a string with a white-space rune at its head splits into that rune and the rest -/
+theorem spWidth_split (b : UInt8) (r : Bytes) (h : spWidth (b :: r) ≠ 0) :
+    ∃ rune, WsRune rune ∧ b :: r = rune ++ (b :: r).drop (spWidth (b :: r)) := by
+  by_cases hb : isAsciiWs b = true
+  · refine ⟨[b], WsRune.ascii b hb, ?_⟩
+    simp [spWidth, hb]
+  · have hb' : isAsciiWs b = false := by simpa using hb
+    match r with
+    | [] => simp [spWidth, hb'] at h
+    | [c] =>
+      by_cases h2 : (b == 0xC2 && (c == 0x85 || c == 0xA0)) = true
+      · simp only [Bool.and_eq_true, beq_iff_eq] at h2
+        obtain ⟨rfl, hc⟩ := h2
+        exact ⟨[0xC2, c], WsRune.two c hc, by simp [spWidth, isAsciiWs, hc]⟩
+      · simp [spWidth, hb', h2] at h
+    | c :: d :: r2 =>
+      by_cases h2 : (b == 0xC2 && (c == 0x85 || c == 0xA0)) = true
+      · simp only [Bool.and_eq_true, beq_iff_eq] at h2
+        obtain ⟨rfl, hc⟩ := h2
+        exact ⟨[0xC2, c], WsRune.two c hc, by simp [spWidth, isAsciiWs, hc]⟩
+      · by_cases h3 : ((b == 0xE1 && c == 0x9A && d == 0x80) || (b == 0xE2 && c == 0x80 && isE280Sp d)
+            || (b == 0xE2 && c == 0x81 && d == 0x9F) || (b == 0xE3 && c == 0x80 && d == 0x80)) = true
+        · refine ⟨[b, c, d], WsRune.three b c d h3, ?_⟩
+          have hw : spWidth (b :: c :: d :: r2) = 3 := by
+            simp only [spWidth, hb', Bool.false_eq_true, if_false, h2, h3, if_true]
+          rw [hw]; rfl
+        · have hw : spWidth (b :: c :: d :: r2) = 0 := by
+            simp only [spWidth, hb', Bool.false_eq_true, if_false, h2, h3]
+          exact absurd hw h
 
-theorem padOK_allWs {p : Bytes} (h : padOK p = true) : allWs p := fun b hb => ((padOK_iff p).mp h b hb).1
+theorem wsRunesAux_allWs : ∀ (n : Nat) (p : Bytes), wsRunesAux n p = true → allWs p
+  | _, [], _ => allWs.nil
+  | 0, _ :: _, h => by simp [wsRunesAux] at h
+  | n + 1, b :: r, h => by
+    simp only [wsRunesAux, Bool.and_eq_true, bne_iff_ne, ne_eq] at h
+    obtain ⟨rune, hr, he⟩ := spWidth_split b r h.1
+    rw [he]
+    exact allWs.cons rune _ hr (wsRunesAux_allWs n _ h.2)
 
-theorem padOK_noLF {p : Bytes} (h : padOK p = true) : LF ∉ p := fun hb => ((padOK_iff p).mp h _ hb).2 rfl
+theorem padOK_allWs {p : Bytes} (h : padOK p = true) : allWs p := by
+  simp only [padOK, Bool.and_eq_true] at h
+  exact wsRunesAux_allWs _ _ h.1
+
+theorem padOK_noLF {p : Bytes} (h : padOK p = true) : LF ∉ p := by
+  simp only [padOK, Bool.and_eq_true, Bool.not_eq_true', List.contains_eq_mem, decide_eq_false_iff_not] at h
+  exact h.2
 
 theorem ws_ne_colon {b : UInt8} (h : isAsciiWs b = true) : b ≠ COLON := by
   intro e; subst e; simp [isAsciiWs, COLON] at h
 
-theorem padOK_noColon {p : Bytes} (h : padOK p = true) : COLON ∉ p := fun hb => ws_ne_colon (((padOK_iff p).mp h _ hb).1) rfl
-
-theorem allWs_append {p q : Bytes} (hp : allWs p) (hq : allWs q) : allWs (p ++ q) := by
-  intro b hb; rcases List.mem_append.mp hb with h | h
-  · exact hp b h
-  · exact hq b h
-
-theorem allWs_LF : allWs [LF] := by intro b hb; rw [List.mem_singleton.mp hb]; rfl
+theorem padOK_noColon {p : Bytes} (h : padOK p = true) : COLON ∉ p := by
+  intro hb
+  rcases allWs_bytes (padOK_allWs h) _ hb with h1 | h1
+  · exact ws_ne_colon h1 rfl
+  · exact absurd h1 (by decide)
 
 theorem noLF_iff (s : Bytes) : noLF s = true ↔ LF ∉ s := by simp [noLF]
 
